@@ -80,6 +80,10 @@ def render_program(rec, seed):
     other = None
     if mode != 0 and rks:
         other = main_plans.pop()
+    if mode == 2:
+        # the include statement is planted like a fault block of its own, so that it never lands between a fault statement
+        # and the set-up statements that belong to it (e.g. '.byte' and its '.even')
+        main_plans.append((rec["prog"] % 7, {"pre": [], "stmt": ".include /inc.mac/", "post": [], "culprit": (0, 8), "fs": {}}))
     main_text, _ = plant(main_plans, "m")
     infiles = ["main.mac"]
     if mode == 1:
@@ -89,9 +93,6 @@ def render_program(rec, seed):
     elif mode == 2:
         text2, _ = plant([other] if other else [], "i")
         files["inc.mac"] = text2
-        lines = main_text.split("\n")
-        lines.insert(min(len(lines) - 1, 2 + rec["prog"] % 4), ".include /inc.mac/")
-        main_text = "\n".join(lines)
     files["main.mac"] = "".join(h + "\n" for h in head) + main_text
     files.update(fs)
     return files, infiles, kinds
